@@ -20,15 +20,15 @@ func init() {
 }
 
 func checkC09(c *Ctx) {
-	c.Rule("R9.1", "guarded-by: state behind each zap mutex is only accessed with it held", 40)
-	c.Rule("R9.2", "once-publication: fields stored in a sync.Once closure are read only after the Do wrapper, in the whole method set", 5)
+	c.Rule("R9.1", "guarded-by: state behind each zap mutex is only accessed with it held", 36)
+	c.Rule("R9.2", "once-publication: fields stored in a sync.Once closure are read only after the Do wrapper, in the whole method set", 2)
 	c.Rule("R9.3", "immutability: stores to fields of shared lock-free types only on fresh objects / option-closure arguments; appliers pass fresh clones", 30)
-	c.Rule("R9.4", "sampler counters are atomics handled by pointer", 3)
+	c.Rule("R9.4", "sampler counters are atomics handled by pointer", 2)
 	c.Rule("R9.5", "no blocking operation, re-acquisition or nested acquisition while a zap mutex is held", 10)
-	c.Rule("R9.6", "EncodeEntry/Clone never store through the receiver", 4)
+	c.Rule("R9.6", "EncodeEntry/Clone never store through the receiver", 3)
 
 	// ---------------- R9.1 ----------------
-	c.Rule("R9.7", "BufferedWriteSyncer.Stop: atomic test-and-set, single close, wait with the mutex released (no double-close panic, no deadlock)", 5)
+	c.Rule("R9.7", "BufferedWriteSyncer.Stop: atomic test-and-set, single close, wait with the mutex released (no double-close panic, no deadlock)", 4)
 	c12Rules(c, "R9.1", "", "", "R9.7", "")
 	if ol := c.Named("go.uber.org/zap/zaptest/observer", "ObservedLogs"); c.Anchor("R9.1", "observer.ObservedLogs", ol != nil) {
 		guardedBy(c, "R9.1", ol, map[string]bool{"logs": true}, "mu", nil, func(Access) string { return "" })
